@@ -19,7 +19,9 @@ THEOREMS = [
     "C15_errors_all_collected", "C15_iro_follows_bases", "C15_memo_transparent", "C15_iro_members",
 ]
 RULE = ("interface DAGs of 2..7 interfaces (plus Interface) with direct attributes (Attribute or method), tagged values "
-        "(class-body taggedValue or setTaggedValue) and invariants; a case is non-trivial when in the final graph some "
+        "(class-body taggedValue or setTaggedValue; ints or None, None being a defined value) and invariants; 20% of the "
+        "cases ('twin-' kinds) rebase an interface with warm dependents from a base O onto a different interface object "
+        "with O's __name__ and __module__ but other direct attributes/tags; a case is non-trivial when in the final graph some "
         "name or tag is defined by at least two interfaces of one interface's resolution order; distinct = distinct "
         "(final bases, definers per name, definers per tag, number of rebasings, get-before-rebase) signature; "
         "kind 'diamond1' = the final graph has a diamond whose common ancestor defines a name or tag that exactly one "
@@ -50,7 +52,89 @@ def _reaches(bases, y, x):
     return False
 
 
+def _tagval(rng, v, p_none=0.25):
+    """a tagged value: an int, or None (a defined value that must shadow inherited ones)"""
+    return None if rng.random() < p_none else v
+
+
+def _gen_twin_case(rng):
+    """O = 1 is the base of M only; descendants D of M have a warm memo; then M.__bases__ replaces O by
+    T, a DIFFERENT interface object with O's __name__ and __module__ (so O == T) and other direct
+    attributes / tags.  In the model T is just another node.  O and T are never rebased and no
+    interface ever has both among its ancestors (equal-key interfaces under one base: finding F10)."""
+    side = rng.random() < 0.5
+    O = 1
+    S = 2 if side else None
+    M = 3 if side else 2
+    nd = rng.randint(1, 3)
+    n0 = M + nd
+    T = n0 + 1
+    n = T
+    bases = {O: rng.choice([[0], [0], []])}
+    if side:
+        bases[S] = [0]
+    bases[M] = rng.choice([[O, S], [S, O], [O]]) if side else [O]
+    for i in range(M + 1, n0 + 1):
+        pool = list(range(M, i))
+        b = rng.sample(pool, min(len(pool), rng.choice([1, 1, 2])))
+        if i == M + 1 and M not in b:
+            b[0] = M
+        if side and rng.random() < 0.25:
+            b.append(S)
+        bases[i] = b
+    r = rng.random()
+    if r < 0.65:
+        bases[T] = list(bases[O])           # the new order is element-wise == the old one
+    elif r < 0.8:
+        bases[T] = [] if bases[O] else [0]
+    elif side:
+        bases[T] = [S]
+    else:
+        bases[T] = [0]
+    attrs, tags = {}, {}
+    for i in range(1, n + 1):
+        pa = 0.65 if i in (O, T) else 0.2
+        attrs[i] = [[nm, rng.choice(["attr", "meth"])] for nm in range(K_NAMES) if rng.random() < pa]
+        tags[i] = [[t, _tagval(rng, 10 * i + t)] for t in range(1, K_TAGS + 1) if rng.random() < (0.5 if i in (O, T) else 0.2)]
+    invs, failing = {}, []
+    for i in range(1, n + 1):
+        invs[i] = [100 * i + j for j in range(rng.choice([0, 0, 1]))]
+        failing += [v for v in invs[i] if rng.random() < 0.3]
+    style = [rng.choice(["body", "call"]) for _ in range(n)]
+    ops = []
+    if rng.random() < 0.85:
+        for x in range(1, n + 1):
+            for nm in range(K_NAMES):
+                ops.append(["get", x, nm, rng.choice([0, 1, 2, 3])])
+    else:
+        for _ in range(rng.randint(1, 5)):
+            ops.append(["get", rng.randint(M, n0), rng.randrange(K_NAMES), rng.choice([0, 1, 2, 3])])
+    if rng.random() < 0.2:
+        ops.append(["settag", rng.choice([O, T, M]), rng.randint(1, K_TAGS), _tagval(rng, 1500)])
+    cur = {i: list(b) for i, b in bases.items()}
+    cur[M] = [T if b == O else b for b in cur[M]]
+    ops.append(["setbases", M, list(cur[M])])
+    for _ in range(rng.randint(0, 3)):
+        ops.append(["get", rng.randint(M, n0), rng.randrange(K_NAMES), rng.choice([0, 1, 2, 3])])
+    if nd >= 2 and rng.random() < 0.3:
+        x = rng.randint(M + 1, n0)          # a strict descendant of M goes elsewhere (never onto O / T)
+        ok = [y for y in range(1, n0 + 1) if y not in (x, O) and not _reaches(cur, y, x)]
+        if ok:
+            cur[x] = rng.sample(ok, min(len(ok), rng.choice([1, 2])))
+            ops.append(["setbases", x, list(cur[x])])
+    pyname = list(range(1, n + 1))
+    pyname[T - 1] = O
+    return {
+        "n": n, "bases": [bases[i] for i in range(1, n + 1)], "attrs": [attrs[i] for i in range(1, n + 1)],
+        "tags": [tags[i] for i in range(1, n + 1)], "style": style, "invs": [invs[i] for i in range(1, n + 1)],
+        "failing": failing, "ops": ops, "names": list(range(K_NAMES)), "tagsU": list(range(0, K_TAGS + 1)),
+        "nodes": list(range(1, n + 1)) + [0], "pyname": pyname,
+    }
+
+
 def _gen_case(rng):
+    if rng.random() < 0.2:
+        return _gen_twin_case(rng)
     diamond = rng.random() < 0.75
     n = rng.randint(4, 7) if diamond else rng.randint(2, 7)
     bases = {}
@@ -78,11 +162,11 @@ def _gen_case(rng):
                 attrs[i].append([nm, rng.choice(["attr", "meth"])])
         for t in range(1, K_TAGS + 1):
             if rng.random() < 0.3:
-                tags[i].append([t, 10 * i + t])
+                tags[i].append([t, _tagval(rng, 10 * i + t)])
     if diamond:
         # name 0 / tag 1: defined by the common ancestor, overridden on exactly one branch
         for table, key, mk in ((attrs, 0, lambda i: [0, rng.choice(["attr", "meth"])]),
-                               (tags, 1, lambda i: [1, 10 * i + 1])):
+                               (tags, 1, lambda i: [1, 10 * i + 1 if i == 1 else _tagval(rng, 10 * i + 1, 0.4)])):
             if table is tags and rng.random() < 0.4:
                 continue
             over = rng.choice([2, 3, 3])
@@ -122,7 +206,7 @@ def _gen_case(rng):
         if rng.random() < 0.3:
             x = rng.randint(1, n)
             t = rng.randint(1, K_TAGS)
-            ops.append(["settag", x, t, 1000 + 10 * x + t])
+            ops.append(["settag", x, t, _tagval(rng, 1000 + 10 * x + t)])
         cands = [x for x in range(1, n + 1) if not (keep_diamond and x in (2, 3, 4))]
         x = rng.choice(cands)
         ok = [y for y in range(1, n + 1) if y != x and not _reaches(cur, y, x)]
@@ -138,7 +222,7 @@ def _gen_case(rng):
     if rng.random() < 0.3:
         x = rng.randint(1, n)
         t = rng.randint(1, K_TAGS)
-        ops.append(["settag", x, t, 2000 + 10 * x + t])
+        ops.append(["settag", x, t, _tagval(rng, 2000 + 10 * x + t)])
     some_gets(rng.randint(0, 3))
     return {
         "n": n, "bases": [bases[i] for i in range(1, n + 1)], "attrs": [attrs[i] for i in range(1, n + 1)],
@@ -151,7 +235,7 @@ def _gen_case(rng):
 def readme_diamond(ops=()):
     """README: IBase.foo, IBase1(IBase), IBase2(IBase) overrides foo, ISub(IBase1, IBase2)"""
     return {"n": 4, "bases": [[0], [1], [1], [2, 3]], "attrs": [[[0, "meth"]], [], [[0, "meth"]], []],
-            "tags": [[[1, 11]], [], [[1, 31]], []], "style": ["body"] * 4, "invs": [[100], [], [300, 301], [400]],
+            "tags": [[[1, 11], [2, 12]], [], [[1, None]], []], "style": ["body"] * 4, "invs": [[100], [], [300, 301], [400]],
             "failing": [300, 100], "ops": [list(o) for o in ops], "names": [0, 1], "tagsU": [0, 1, 2],
             "nodes": [4, 3, 2, 1, 0]}
 
@@ -171,9 +255,15 @@ def _ln(l):
     return C.clist(["%d" % x for x in l])
 
 
+def _tv(v):
+    return "TNone" if v is None else "(TV %d)" % v
+
+
 def _tval(v):
     if v is None:
         return "None"
+    if v[0] == "none":
+        return "(Some TNone)"
     if v[0] == "v":
         return "(Some (TV %d))" % v[1]
     return "(Some (TInvs %s))" % _ln(v[1])
@@ -183,7 +273,7 @@ def _op(op):
     if op[0] == "setbases":
         return "OSetBases %d %s" % (op[1], _ln(op[2]))
     if op[0] == "settag":
-        return "OSetTag %d %d (TV %d)" % (op[1], op[2], op[3])
+        return "OSetTag %d %d %s" % (op[1], op[2], _tv(op[3]))
     return "OGet %d %d" % (op[1], op[2])
 
 
@@ -194,7 +284,7 @@ def _input(case):
              for i, al in enumerate(case["attrs"])]
     tags = []
     for i in range(n):
-        tl = ["(%d, TV %d)" % (t, v) for t, v in case["tags"][i]]
+        tl = ["(%d, %s)" % (t, _tv(v)) for t, v in case["tags"][i]]
         if case["invs"][i]:
             tl.append("(0, TInvs %s)" % _ln(case["invs"][i]))
         tags.append("(%d, %s)" % (i + 1, C.clist(tl)))
@@ -283,13 +373,14 @@ def classify(case, obs):
     get_before = "get" in kinds[:kinds.index("setbases")] if nreb else False
     return (tuple(tuple(cur[i]) for i in sorted(cur)),
             tuple(tuple(sorted(a[0] for a in al)) for al in case["attrs"]),
-            tuple(tuple(sorted(tg[i])) for i in sorted(tg)), nreb, get_before)
+            tuple(tuple(sorted(tg[i])) for i in sorted(tg)), nreb, get_before, tuple(case.get("pyname") or ()))
 
 
 def kind(case, obs):
     kinds = [op[0] for op in case["ops"]]
     nreb = kinds.count("setbases")
-    return "%s/%s" % ("diamond1" if _diamond1(case) else "other", "rebased" if nreb else "static")
+    twin = "twin-" if case.get("pyname") else ""
+    return "%s%s/%s" % (twin, "diamond1" if _diamond1(case) else "other", "rebased" if nreb else "static")
 
 
 def replay_text(case, obs, mode):
